@@ -45,6 +45,8 @@ def plan(tier, seed):
                         cse = True
                     cases.append({"kind": "topology", "n": n, "ti": ti, "labeling": lab, "stratum": st,
                                   "cse": cse, "massless": bool(len(cases) % 3 == 0),
+                                  # every other case: the event is given in a frame in which the decaying state moves
+                                  "lab_frame": bool(len(cases) % 2),
                                   "cost": (60.0 if cse else 250.0) if deep else (15.0 if n == 5 else 0.5 * n ** 2)})
     for n in (3, 4):
         for ti in range(len(create_isobar_topologies(n))):
@@ -244,11 +246,17 @@ def run_case(case, rec, ctx):
         ids = sorted(top.outgoing_edge_ids)
         m, M = _masses(case["n"], rng, case["massless"])
         ctx["events"] = gen_events(M, m, nev, rng, ids=ids, stratum=case["stratum"])
+        if case.get("lab_frame"):
+            from vmon.workloads.events import boost_from_rest
+            gam = 1 + 10 ** rng.uniform(-2, 1.3, nev)
+            d_ = rng.normal(size=(nev, 3)); d_ /= np.linalg.norm(d_, axis=1)[:, None]
+            ref_ = np.concatenate([(gam * M)[:, None], (np.sqrt(gam ** 2 - 1) * M)[:, None] * d_], 1)
+            ctx["events"] = {i_: boost_from_rest(q_, ref_, np.full(nev, M)) for i_, q_ in ctx["events"].items()}
         ctx["cse"] = case["cse"]
         depth = max(len([1 for _ in _chain(top, e)]) for e in top.outgoing_edge_ids)
         ctx["feats"] = {"n": case["n"], "ti": case["ti"], "labeling": case["labeling"], "stratum": case["stratum"]}
-        rec.case(("topology", case["n"], case["ti"], case["labeling"], case["stratum"], case["cse"]), depth >= 2,
-                 n_final=case["n"], labeling=case["labeling"], stratum=case["stratum"], cse=case["cse"])
+        rec.case(("topology", case["n"], case["ti"], case["labeling"], case["stratum"], case["cse"], bool(case.get("lab_frame"))), depth >= 2,
+                 n_final=case["n"], labeling=case["labeling"], stratum=case["stratum"], cse=case["cse"], lab_frame=bool(case.get("lab_frame")))
         rec.sample(f"topology:{case['n']}:{case['labeling']}", {"topology": str(top), "masses": m, "M": M, "stratum": case["stratum"], "cse": case["cse"]})
         p = create_four_momentum_symbols(top)
         compute_helicity_angles(p, top)      # judged by the attached post-conditions
